@@ -61,6 +61,11 @@ func (pf *ZKProof) Verify(Session []byte, X *crypto.ECPoint) bool {
 	q := ecParams.N
 	g := crypto.NewECPointNoCurveCheck(ec, ecParams.Gx, ecParams.Gy)
 
+	// t = 0 (mod q) has no representable image t*G on secp256k1
+	if new(big.Int).Mod(pf.T, q).Sign() == 0 {
+		return false
+	}
+
 	var c *big.Int
 	{
 		cHash := common.SHA512_256i_TAGGED(Session, X.X(), X.Y(), g.X(), g.Y(), pf.Alpha.X(), pf.Alpha.Y())
@@ -115,6 +120,11 @@ func (pf *ZKVProof) Verify(Session []byte, V, R *crypto.ECPoint) bool {
 	q := ecParams.N
 	g := crypto.NewECPointNoCurveCheck(ec, ecParams.Gx, ecParams.Gy)
 
+	// t = 0 or u = 0 (mod q) have no representable images on secp256k1
+	if new(big.Int).Mod(pf.T, q).Sign() == 0 || new(big.Int).Mod(pf.U, q).Sign() == 0 {
+		return false
+	}
+
 	var c *big.Int
 	{
 		cHash := common.SHA512_256i_TAGGED(Session, V.X(), V.Y(), R.X(), R.Y(), g.X(), g.Y(), pf.Alpha.X(), pf.Alpha.Y())
@@ -122,7 +132,10 @@ func (pf *ZKVProof) Verify(Session []byte, V, R *crypto.ECPoint) bool {
 	}
 	tR := R.ScalarMult(pf.T)
 	uG := crypto.ScalarBaseMult(ec, pf.U)
-	tRuG, _ := tR.Add(uG) // already on the curve.
+	tRuG, err := tR.Add(uG)
+	if err != nil {
+		return false
+	}
 
 	Vc := V.ScalarMult(c)
 	aVc, err := pf.Alpha.Add(Vc)
